@@ -195,6 +195,14 @@ func (c *CEnv) evalH(e *CE, hint *Value) Value {
 		if e.Name == "!" {
 			return Value{K: KScalar, X: Not(c.flipped(func() *Term { return c.evalBool(e.Args[0]) }))}
 		}
+		if e.Name == "*" {
+			// *p: the value the pointer refers to in the current heap
+			a := c.eval(e.Args[0])
+			if a.K != KPtr {
+				c.fail("* of a non-pointer in %s", e)
+			}
+			return c.x.loadLoc(c.heap(), a.Loc)
+		}
 		a := c.evalH(e.Args[0], hint)
 		switch e.Name {
 		case "!":
